@@ -53,7 +53,10 @@ def patterns(rng, tier):
                 # entries older than the middle period
                 [(1, 1), (4, 2), (8, 3)], [(12, 3), (2, 1), (6, 2)],
                 # limits that share a period (also spelled differently in a configuration): every one of them holds, the strictest decides
-                [(2, 2), (8, 2)], [(8, 1), (2, 1)], [(6, 3), (2, 1), (8, 1)]]
+                [(2, 2), (8, 2)], [(8, 1), (2, 1)], [(6, 3), (2, 1), (8, 1)],
+                # a burst limit beside a long-term limit that is the tighter one for traffic spaced a little more than the short period apart
+                # (polls 5 s apart, retries 1 s apart): the endpoint looks idle to the short limit while the long one is full
+                [(2, 1), (3, 6)], [(3, 1), (2, 4)], [(3, 6), (1, 1), (2, 3)]]
     if tier == "thorough":
         lim_sets += [[(1, 10)], [(3, 5), (7, 10)], [(20, 10)], [(5, 4), (8, 7), (12, 10)], [(15, 3)], [(2, 6)], [(10, 2), (3, 10)], [(8, 3), (5, 6), (2, 9)]]
     for ls in lim_sets:
@@ -63,6 +66,9 @@ def patterns(rng, tier):
         kinds = {"burst": [0] * total, "burst after idle": [0] * nmax + [int(pmax * 1200)] + [0] * nmax,
                  "steady": [int(1000 * min(p for _, p in ls) / max(1, min(n for n, _ in ls)) * 0.5)] * min(total, 14),
                  "random": [rng.choice([0, 0, 30, 150, 400, int(pmax * 600)]) for _ in range(min(total, 16))]}
+        if len({p for _, p in ls}) > 1:
+            pmin = min(p for _, p in ls)
+            kinds["spaced beyond the shortest period"] = [int(pmin * 1200)] * min(total, nmax + 4)
         for k, gaps in kinds.items():
             # keep each probe run below ~25 s (quick) / 120 s (thorough)
             budget = (25 if tier != "thorough" else 120)
